@@ -110,6 +110,52 @@ def check_shared_state(rep):
             rep.tie_broken(f"shared object '{name}' that the model mirrors is gone from the library", name)
 
 
+# ----------------------------------------------------------------- order of stores in the lazy initialisers
+
+LAZY_INITS = [
+    # file, initialiser, flag, what counts as a store into the table
+    ("src/util/crc32.c", "crc32_init_tables", "crc32_tables_initialized", r"crc32_tables\s*\["),
+    ("src/simd/dispatch.c", "carquet_simd_dispatch_init", "g_dispatch_initialized", r"g_dispatch\s*\.\s*\w+\s*="),
+    ("src/simd/detect.c", "carquet_init", "g_initialized", r"g_cpu_info|detect_\w+_features\s*\("),
+]
+
+
+def check_flag_order(rep):
+    """LazyInit.v has every initialiser store its flag LAST (l_setflag after the writes).  That order is read from
+    the sources here: inside the initialiser every store to the flag (assignment, atomic store / exchange) must
+    come after the last store into the table."""
+    for rel, fn, flag, tab in LAZY_INITS:
+        rep.count("flag-order " + rel)
+        src = (vlib.REPO / rel)
+        if not src.exists():
+            rep.tie_broken(f"lazy initialiser: {rel} is gone")
+            continue
+        text = re.sub(r"/\*.*?\*/", lambda m: re.sub(r"[^\n]", " ", m.group(0)), src.read_text(), flags=re.S)
+        m = re.search(r"\b" + fn + r"\s*\([^;{]*\)\s*\{", text)
+        if not m:
+            rep.tie_broken(f"lazy initialiser {fn} not found in {rel} (LazyInit.v mirrors it)")
+            continue
+        i = m.end() - 1
+        depth, j = 0, i
+        while j < len(text):
+            depth += text[j] == "{"
+            depth -= text[j] == "}"
+            if depth == 0:
+                break
+            j += 1
+        body = text[i:j]
+        stores = [x.start() for x in re.finditer(
+            r"(?<![=!<>])\b" + flag + r"\s*=(?!=)|__atomic_(?:store|exchange|fetch_\w+|compare_exchange)\w*\s*\(\s*&\s*" + flag +
+            r"|_Interlocked\w+\s*\([^;]*&\s*" + flag, body)]
+        tabs = [x.start() for x in re.finditer(tab, body)]
+        if not stores:
+            rep.tie_broken(f"{rel}:{fn} never stores its flag {flag} (LazyInit.v: the flag is set after the table is filled)", rel)
+        elif tabs and min(stores) < max(tabs):
+            line = text.count("\n", 0, i + min(stores)) + 1
+            rep.tie_broken(f"{rel}:{line} {fn} publishes {flag} BEFORE the table is complete (a store to the flag precedes a store into "
+                           f"the table): LazyInit.v and lazy_init_reads_final assume the flag is stored last", rel)
+
+
 # ---------------------------------------------------------------------------------- forced schedules
 
 def interleavings(counts):
@@ -482,6 +528,50 @@ def check_indep(rep, tier, rng, drv):
     rep.sample({"op": "indep", "case": fresh[0], "result": fres[0][0][:100]})
 
 
+# ------------------------------------------------------------------------ concurrent first use, fresh forks
+
+def check_firstuse(rep, tier, rng, drv):
+    """N threads with one reader handle each (opened before a spin barrier) are released together into their FIRST
+    page load in a process that has never used the library: every trial is a fresh fork of a driver process that is
+    fed nothing but firstuse lines.  The column-reader API reports the first failed load directly (the batch reader
+    retries a swallowed prefetch error, which can hide a short-lived inconsistency)."""
+    seedbase = vlib.SEED * 100 + 70
+    trials = 12 if tier == "quick" else 40
+    lines = []
+    for codec in ((0, 6) if tier == "quick" else CODECS):
+        for mode in ("fread", "mmap", "buffer"):
+            for api in ("col", "batch"):
+                for N in ((8,) if tier == "quick" else (2, 8, 16)):
+                    types = "il" if api == "col" else "ilDf"
+                    lines.append(f"firstuse {fspec(codec, types, 1, 1, 64, seedbase)} {mode} {N} {trials} {api}")
+
+    def one(line):
+        try:
+            o, rc, err = vlib.run_lines(drv, [line], timeout=900, env=san_env())
+        except subprocess.TimeoutExpired:
+            return "FAULT timeout", -9, ""
+        return (o[0] if o else "FAULT died"), rc, err
+    # few processes at a time: the threads of a trial spin at a barrier and must really run simultaneously
+    with ThreadPoolExecutor(max(2, vlib.NCPU // 6)) as ex:
+        res = list(ex.map(one, lines))
+    total = 0
+    for li, (o, rc, err) in zip(lines, res):
+        rep.count(li)
+        kv = parse_kv(o)
+        t = li.split()
+        if kv["_status"] != "OK" or rc != 0:
+            rep.violation(f"concurrent first use: driver failed ({o[:200]}): {san_summary(err)}", {"case": li, "fresh_process": True})
+            continue
+        total += int(kv.get("trials", 0))
+        if kv.get("eq") != "1":
+            rep.violation(f"concurrent FIRST use of the library in a fresh process ({t[9]} threads, one reader handle each, {t[8]} mode, "
+                          f"codec {CODECS[int(t[2])]}, {'column readers' if t[11] == 'col' else 'batch readers'}): in {kv.get('differ')} of "
+                          f"{kv.get('trials')} trials a reader returned other statuses/values than the same reader used alone "
+                          f"({kv.get('crashed')} crashed)", {"case": li, "fresh_process": True})
+    rep.cov.setdefault("input_distribution", {})["first_use_fresh_fork_trials"] = total
+    rep.sample({"op": "firstuse", "case": lines[0], "result": res[0][0]})
+
+
 # ------------------------------------------------------------------------------ model self-consistency
 
 def check_model(rep, runner):
@@ -609,11 +699,13 @@ def run(tier):
         rep.tie_broken("harness does not build against the current tree: " + str(e)[:700])
         return rep.finish()
     check_shared_state(rep)
+    check_flag_order(rep)
     check_corpus(rep, drv)
     check_model(rep, runner)
     check_forced(rep, tier, rng, drv, runner)
     check_sweep(rep, tier, rng, drv)
     check_indep(rep, tier, rng, drv)
+    check_firstuse(rep, tier, rng, drv)
     if tier == "thorough":
         check_tsan(rep, rng)
     return rep.finish()
@@ -629,6 +721,13 @@ def replay(path):
     drv = build_driver("h_conc", libs=["-lpthread"])
     print("case:", case)
     bad = 0
+    if case.startswith("firstuse"):
+        t = case.split()
+        t[10] = "60"
+        out, rc, err = vlib.run_lines(drv, [" ".join(t)], env=san_env(), timeout=900)
+        print("implementation:", out, "rc", rc, err[-800:])
+        kv = parse_kv(out[0] if out else "FAULT")
+        return 0 if (rc == 0 and kv.get("eq") == "1") else 1
     n = 5 if not case.split()[-1].startswith("f:") else 1
     for i in range(n):   # free-running cases depend on timing: repeat
         out, rc, err = vlib.run_lines(drv, ["mk " + " ".join(case.split()[1:8]), case][(1 if case.endswith("premade") and i else 0):], env=san_env())
